@@ -18,6 +18,7 @@ class Rec(ErrorListener):
         self.parser_errors: list[str] = []
         self.lexer_errors: list[str] = []
         self.progs = 0
+        self.tree = None
 
     def reset(self) -> None:
         self.parser_errors = []
@@ -57,7 +58,9 @@ def install() -> None:
         def prog(self):
             FILE.progs += 1
             self.addErrorListener(_ParserSide(FILE))
-            return super().prog()
+            FILE.tree = None
+            FILE.tree = super().prog()
+            return FILE.tree
 
     class RecFileLexer(api.ZorgFileLexer):
         def __init__(self, *a, **k):
